@@ -116,9 +116,15 @@ type slowLogger struct{ logging.NoLog }
 func (slowLogger) Debug(string, ...zap.Field) { time.Sleep(300 * time.Microsecond) }
 
 func (l *live) builderWith(vw chain.ValidityWindow, cores int, targetTxsSize int, log logging.Logger) *chain.Builder {
+	return l.builderFor(vw, cores, targetTxsSize, log, 5*time.Second)
+}
+
+// builderFor also sets the build time budget (the builder stops streaming from the mempool when
+// it is used up).
+func (l *live) builderFor(vw chain.ValidityWindow, cores int, targetTxsSize int, log logging.Logger, budget time.Duration) *chain.Builder {
 	cfg := chain.NewDefaultConfig()
 	cfg.TransactionExecutionCores = cores
-	cfg.TargetBuildDuration = 5 * time.Second
+	cfg.TargetBuildDuration = budget
 	cfg.TargetTxsSize = targetTxsSize
 	return chain.NewBuilder(trace.Noop, l.rf, log, fixture.Metadata(), fixture.BalanceHandler(), l.mp, vw, fixture.Metrics(), cfg)
 }
